@@ -140,6 +140,27 @@ fn run_payload(tokens: &[&str], ctx: &mut Ctx) {
     }
 }
 
+fn run_big_payload(payload: &str, ctx: &mut Ctx) {
+    ctx.count("evaluations", 1);
+    ctx.count("transitions", payload.len() as u64);
+    ctx.count("nontrivial", 1);
+    match catch(|| Sixel::parse_from(Position::new(0, 0), 1, 2, [0, 0, 0, 0], payload)) {
+        Err(p) => ctx.panic(&p, json!({"payload": payload.chars().take(80).collect::<String>()})),
+        Ok(Err(_)) => ctx.outcome(1),
+        Ok(Ok(s)) => {
+            let (w, h) = (s.get_width(), s.get_height());
+            let mut f = Fnv::new();
+            f.i32(w);
+            f.i32(h);
+            ctx.outcome(f.finish());
+            ctx.state(f.finish());
+            if w < 0 || h < 0 || s.picture_data.len() as i64 != w as i64 * h as i64 * 4 {
+                ctx.violation("diff:sixel:data-len-ne-4wh:large-image", json!({"payload": payload.chars().take(80).collect::<String>(), "payload_len": payload.len(), "width": w, "height": h, "len": s.picture_data.len()}));
+            }
+        }
+    }
+}
+
 // ------------------------------------------------------------------ schedules
 
 #[derive(Clone, Copy, Debug, PartialEq)]
@@ -150,7 +171,8 @@ enum Ev {
 }
 
 /// (cell x, cell y, px width, px height)
-const IMAGES: [(i32, i32, i32, i32); 4] = [(0, 0, 8, 16), (5, 5, 8, 16), (0, 0, 16, 32), (5, 5, 4, 8)];
+/// image 2 covers image 0, image 1 covers image 3, image 4 covers all others (so it can replace several adjacent older images at once)
+const IMAGES: [(i32, i32, i32, i32); 5] = [(0, 0, 8, 16), (5, 5, 8, 16), (0, 0, 16, 32), (5, 5, 4, 8), (0, 0, 64, 112)];
 
 fn image_dcs(img: usize) -> Vec<u8> {
     let (cx, cy, w, h) = IMAGES[img];
@@ -275,7 +297,34 @@ fn ev_json(s: &[Ev]) -> Value {
     )
 }
 
+static POLL_STARTED_MS: std::sync::atomic::AtomicU64 = std::sync::atomic::AtomicU64::new(0);
+static POLL_BLOCKED: std::sync::atomic::AtomicBool = std::sync::atomic::AtomicBool::new(false);
+
+fn now_ms() -> u64 {
+    std::time::SystemTime::now().duration_since(std::time::UNIX_EPOCH).unwrap().as_millis() as u64
+}
+
+/// A poll that waits for a held decode would never return; this monitor releases every ticket after 500 ms
+/// so that the blocked poll comes back and can be reported (instead of losing the worker).
+fn start_poll_monitor() {
+    static ONCE: std::sync::Once = std::sync::Once::new();
+    ONCE.call_once(|| {
+        std::thread::spawn(|| loop {
+            std::thread::sleep(Duration::from_millis(20));
+            let t = POLL_STARTED_MS.load(std::sync::atomic::Ordering::SeqCst);
+            if t != 0 && now_ms().saturating_sub(t) > 500 {
+                POLL_BLOCKED.store(true, std::sync::atomic::Ordering::SeqCst);
+                for k in 0..16 {
+                    verif_hooks::release(k);
+                }
+            }
+        });
+    });
+}
+
 fn run_schedule(assign: &[usize], sched: &[Ev], ctx: &mut Ctx) {
+    start_poll_monitor();
+    POLL_BLOCKED.store(false, std::sync::atomic::Ordering::SeqCst);
     verif_hooks::enable(true);
     let mut buf = Buffer::new((80, 25));
     buf.is_terminal_buffer = true;
@@ -337,12 +386,14 @@ fn run_schedule(assign: &[usize], sched: &[Ev], ctx: &mut Ctx) {
             }
             Ev::Poll => {
                 let t0 = Instant::now();
+                POLL_STARTED_MS.store(now_ms(), std::sync::atomic::Ordering::SeqCst);
                 let r = catch(|| buf.update_sixel_threads());
+                POLL_STARTED_MS.store(0, std::sync::atomic::Ordering::SeqCst);
                 let dt = t0.elapsed();
                 if let Err(p) = r {
                     ctx.panic(&p, json!({"step": step}));
                 }
-                if dt > Duration::from_millis(500) {
+                if dt > Duration::from_millis(500) || POLL_BLOCKED.load(std::sync::atomic::Ordering::SeqCst) {
                     bad = Some(("diff:sixel-sched:poll-blocked".into(), json!({"step": step, "ms": dt.as_millis() as u64})));
                     break;
                 }
@@ -402,10 +453,29 @@ fn run_schedule(assign: &[usize], sched: &[Ev], ctx: &mut Ctx) {
 
 // ------------------------------------------------------------------ engine
 
+/// payloads whose size is far beyond the token alphabet: many bands, long repeats, with and without raster attributes
+fn big_payloads() -> Vec<String> {
+    let mut v = Vec::new();
+    for bands in [1usize, 2, 100, 340, 341, 342, 343, 500, 1000] {
+        for width in [1usize, 3, 2047, 2048, 2049, 3000] {
+            for raster in ["", "\"1;1;4;7", "\"1;1;5000;5000", "\"1;1;3"] {
+                let mut p = String::from(raster);
+                p.push_str(&"-".repeat(bands - 1));
+                p.push_str(&format!("!{width}~"));
+                v.push(p.clone());
+                // a second, shorter row after the long one and a longer row after a short one
+                v.push(format!("{raster}~-{}!{width}@", "-".repeat(bands - 1)));
+            }
+        }
+    }
+    v
+}
+
 struct C14 {
     payloads: Payloads,
     n_payload_batches: u64,
     scheds: Vec<(Vec<usize>, Vec<Ev>)>,
+    big: Vec<String>,
     meta: Value,
 }
 
@@ -426,7 +496,11 @@ fn build(tier: &str) -> C14 {
         let s = gen_schedules(k, polls);
         let want = count_schedules(k, polls);
         assert_eq!(s.len() as u64, want, "schedule enumeration disagrees with the independent count for k={k}");
-        let assigns: Vec<Vec<usize>> = if all_perms { perms(k as usize) } else { vec![(0..k as usize).collect(), vec![2, 0, 3, 1][..k as usize].to_vec()] };
+        let assigns: Vec<Vec<usize>> = if all_perms {
+            perms(k as usize)
+        } else {
+            vec![vec![0, 1, 2, 3], vec![2, 0, 3, 1], vec![0, 1, 4, 3], vec![0, 3, 1, 4], vec![4, 0, 1, 2], vec![3, 0, 4, 1]].into_iter().map(|v| v[..k as usize].to_vec()).collect()
+        };
         space.push(json!({"k": k, "max_polls_per_gap": polls, "schedules": s.len(), "independent_count": want, "image_assignments": assigns.len()}));
         for a in &assigns {
             for sc in &s {
@@ -436,31 +510,37 @@ fn build(tier: &str) -> C14 {
     }
     let meta = json!({"payload_alphabet": PAYLOAD_TOKENS, "payload_depth": payloads.depth, "payloads": payloads.total(), "schedule_space": space,
                       "images(cell x, cell y, px w, px h)": IMAGES.to_vec().iter().map(|i| json!([i.0, i.1, i.2, i.3])).collect::<Vec<_>>()});
-    C14 { payloads, n_payload_batches, scheds, meta }
+    C14 { payloads, n_payload_batches, scheds, big: big_payloads(), meta }
 }
 
 impl Engine for C14 {
     fn total(&self) -> u64 {
         // schedules first (they are the slow ones and interleave well across shards), then payload batches
-        self.scheds.len() as u64 + self.n_payload_batches
+        self.scheds.len() as u64 + self.n_payload_batches + self.big.len() as u64
     }
     fn run(&mut self, idx: u64, ctx: &mut Ctx) {
         if (idx as usize) < self.scheds.len() {
             let (a, s) = self.scheds[idx as usize].clone();
             run_schedule(&a, &s, ctx);
-        } else {
+        } else if idx < self.scheds.len() as u64 + self.n_payload_batches {
             let b = idx - self.scheds.len() as u64;
             let end = ((b + 1) * BATCH).min(self.payloads.total());
             for p in b * BATCH..end {
                 let toks = self.payloads.decode(p);
                 run_payload(&toks, ctx);
             }
+        } else {
+            let p = self.big[(idx - self.scheds.len() as u64 - self.n_payload_batches) as usize].clone();
+            run_big_payload(&p, ctx);
         }
     }
     fn describe(&self, idx: u64) -> Value {
         if (idx as usize) < self.scheds.len() {
             let (a, s) = &self.scheds[idx as usize];
             json!({"engine": "sixel-schedule", "images_in_arrival_order": a, "events": ev_json(s), "then": "poll poll", "key": format!("sixel-sched:k={}", a.len())})
+        } else if idx >= self.scheds.len() as u64 + self.n_payload_batches {
+            let p = &self.big[(idx - self.scheds.len() as u64 - self.n_payload_batches) as usize];
+            json!({"engine": "sixel-big-payload", "payload": p, "key": "sixel-big-payload"})
         } else {
             let b = idx - self.scheds.len() as u64;
             json!({"engine": "sixel-payload-batch", "first": b * BATCH, "count": BATCH, "first_payload": self.payloads.decode(b * BATCH).concat(), "depth": self.payloads.depth, "key": "sixel-payload"})
@@ -488,6 +568,8 @@ impl Engine for C14 {
                 })
                 .collect();
             run_schedule(&a, &s, ctx);
+        } else if case["engine"] == "sixel-big-payload" {
+            run_big_payload(case["payload"].as_str().unwrap_or(""), ctx);
         } else if let Some(p) = case.get("payload_tokens") {
             let toks: Vec<String> = p.as_array().unwrap().iter().map(|v| v.as_str().unwrap().to_string()).collect();
             let r: Vec<&str> = toks.iter().map(|s| s.as_str()).collect();
